@@ -41,7 +41,23 @@ def gen(rng, k, depth=1):
     for i in range(nfn):
         fns["%s_f%d" % (name, i)] = dict(resource=rng.choice(["thread", "thread", "main-thread", "async-thread"]),
                                          priority=rng.choice([0, 0, 3, -2]), is_sequential=rng.random() < 0.15)
-    prog = dict(name=name, file="<%s>" % name, params=["x"], stmts=[], fns=fns, inner=None, methods=rng.random() < 0.5)
+    # where the describing function "lives": an exec-ed string, or a (not necessarily existing) file next to / below a directory
+    # whose name merely STARTS like the installed tawazi package (tawazi_pipelines/, tawazi-extras/, tawazix.py)
+    import os
+
+    import tawazi
+
+    tdir = os.path.dirname(os.path.abspath(tawazi.__file__))
+    r_file = rng.random()
+    if r_file < 0.6:
+        fname = "<%s>" % name
+    elif r_file < 0.75:
+        fname = "%s_pipelines/%s.py" % (tdir, name)
+    elif r_file < 0.9:
+        fname = "%sx_%s.py" % (tdir, name)
+    else:
+        fname = "/opt/flows/tawazi/%s.py" % name
+    prog = dict(name=name, file=fname, params=["x"], stmts=[], fns=fns, inner=None, methods=rng.random() < 0.5)
     vars_ = ["x"]
     symv = ["x"]  # variables known to hold symbolic terms (operators on python bools would bypass the fault hook)
     n = rng.randint(2, 8)
